@@ -181,8 +181,9 @@ def formula_fields(repo):
     """Attribute names that hold formula objects: assigned (anywhere) from a cache-returning
     call or from a LinProg/SOCProg/GCProg constructor.  Discovered, then checked against the
     hand-confirmed minimum."""
-    if id(repo) in _FF:
-        return _FF[id(repo)]
+    _FF = repo.__dict__.setdefault('_ff_cache', {})
+    if 'v' in _FF:
+        return _FF['v']
     out = set()
     for fi in repo.all_functions():
         if fi.module in ('deco', 'cpt_solver_bkp'):
@@ -206,7 +207,7 @@ def formula_fields(repo):
     need = {'primal', 'dual', 'support', 'obj_support'}
     if not need <= out:
         raise AnalysisError('formula-holding fields not recognised: missing %s' % sorted(need - out))
-    _FF[id(repo)] = out
+    _FF['v'] = out
     return out
 
 
